@@ -44,7 +44,9 @@ fn run(t: &Tree, meth: &str, preset: &str, k: usize, budget: u64, thr: f64, seed
         verif::reset();
         verif::set_draw_seed(Some(seed));
         verif::set_record(true, false);
-        let res = game.solve(cfr::method(&meth), budget, thr, k, Some(cfr::params(&cfr::preset(&preset))));
+        // "default" = no parameters given (the documented default) - with and without a threshold alike
+        let par = if preset == "default" { None } else { Some(cfr::params(&cfr::preset(&preset))) };
+        let res = game.solve(cfr::method(&meth), budget, thr, k, par);
         let log = verif::take_log();
         verif::reset();
         let (strat, bound) = res.map_err(|e| format!("{e:?}"))?;
@@ -104,7 +106,7 @@ pub fn record(args: &Args) {
             break;
         }
         let meth = METHODS[gi % 3];
-        let preset = PRESETS[(gi / 3) % 5];
+        let preset = ["vanilla", "lcfr", "cfr_plus", "dcfr", "dcfr_prune", "default"][(gi / 3) % 6];
         let budget = budgets[gi % budgets.len()];
         let sd = seed.wrapping_mul(7919).wrapping_add(gi as u64);
         // the unthresholded prefixes, one thread
